@@ -61,6 +61,15 @@ Definition orders_ok (n : Z) (c : Q) (o : qobs) : bool :=
 Definition is_full (n : Z) (o : qobs) : bool :=
   (o_lo o =? 0) && (o_hi o =? n + 1) && negb (o_amb o) && xeq (XFin 1) (o_conf o).
 
+(* the admissible outcomes for the level c = cn/2^j on the integer masses of unit 1/D, D = 2^(e n):
+   the accumulated integer is scaled by sc = 2^j and compared with the integer cn * D = sc * (D * c).
+   Proofs/QuantileCIScale.v (comparator_outs_contain_model): this set contains the result of the
+   deterministic model on the rational Binomial(n,q) PMF at level c. *)
+Definition small_outs (P : Z -> Q) (n : Z) (g : list (list (st * list st))) (e : Z) (exact : bool) (c : Q) : list qres :=
+  let sc := inject_Z (Zpos (Qden c)) in
+  let c' := inject_Z (Z.shiftl (Qnum c) (e * n)) in
+  qci_small_set P (if exact then 0%Q else ieps_border) n g sc c'.
+
 (* one item of an op-0 line; returns (verdict code, tag) and diagnostics.  [g] is the transition
    graph of the line over the integer masses w_k (unit 1/D, D = 2^(e n)); c = cn/2^j is compared as
    the integer cn * D against (2^j) * accum *)
@@ -72,8 +81,7 @@ Definition check_small_item (P : Z -> Q) (n : Z) (x : Z) (qbits : Z) (g : list (
   else
     let sc := inject_Z (Zpos (Qden c)) in
     let c' := inject_Z (Z.shiftl (Qnum c) (e * n)) in
-    let eps := if exact then 0%Q else ieps_border in
-    let outs := qci_small_set P eps n g sc c' in
+    let outs := small_outs P n g e exact c in
     (* for small n the deterministic model function [qci_small] (the one the theorems are about) is run
        as well, on the same integer masses: its result must be one of the admissible outcomes *)
     let det_ok := if 10 <? n then true else
